@@ -515,7 +515,11 @@ def _nontriv(op, out):
 
 
 LOCATE = Stream('interp_locate', 'h_interplocate', 'interplocate', gen_locate, oracle=oracle_locate,
-                whitebox=['ref_interp'], nontrivial=_nontriv, session='reset', timeout=600)
-LOCATE_MPI = Stream('interp_locate_mpi', 'h_interplocate', 'interplocate', gen_locate, oracle=oracle_locate,
-                    whitebox=['ref_interp'], np=[2, 3], nontrivial=_nontriv, session='reset', timeout=900)
-LOCATE_MPI.ops_file = True
+                whitebox=['ref_interp'], driver_args=('1',), nontrivial=_nontriv, session='reset', timeout=600)
+# one stream per rank count: the model driver is told the size of the world (`refdrv interplocate NP`)
+LOCATE_MPI2 = Stream('interp_locate_mpi2', 'h_interplocate', 'interplocate', gen_locate, oracle=oracle_locate,
+                     whitebox=['ref_interp'], np=[2], driver_args=('2',), nontrivial=_nontriv, session='reset', timeout=900)
+LOCATE_MPI3 = Stream('interp_locate_mpi3', 'h_interplocate', 'interplocate', gen_locate, oracle=oracle_locate,
+                     whitebox=['ref_interp'], np=[3], driver_args=('3',), nontrivial=_nontriv, session='reset', timeout=900)
+LOCATE_MPI2.ops_file = True
+LOCATE_MPI3.ops_file = True
